@@ -24,7 +24,8 @@ reg(Prop(
          ' cyclic_iterator over a bidirectional iterator whose ++ / -- throw at every point of every 5-step direction pattern: the iterator stays inside its boundary and keeps cycling. Enums that fill uint8_t / uint16_t / the positive side of int8_t: sub-ranges ending at the maximum (a sub-range whose enumerator count is not representable in the enum\'s size_type is not judged).'
          ' iterator::range == / != between every pair of sub-ranges of the same container.'
          ' A 256-enumerator uint8_t enum whose fcppt::enum_::size_type_impl is specialised to unsigned: whole range and sub-ranges.'
-         ' cyclic_iterator over list / forward_list: equality against every position of the boundary and the full-cycle loop do ++it; while (it != start).',
+         ' cyclic_iterator over list / forward_list: equality against every position of the boundary and the full-cycle loop do ++it; while (it != start).'
+         ' All pairs of iterators of an int range (both operand orders): equal exactly when advanced equally far.',
     assumptions=COMMON_ASSUMPTIONS + [
         'an enum sub-range is judged when its enumerator count is representable in the enum\'s size_type (the whole range of an enum that fills its underlying type is not: fcppt::enum_::size is 0 for it)',
         'int_range::size() is judged only when the number of elements is representable in the range\'s own integer type (side condition of the statement); for int and wider types it is not even called otherwise because end - begin overflows (undefined)',
